@@ -2018,7 +2018,7 @@ func (self *TextServerProtocol) FindHandler(name string) (TextServerProtocolComm
 		self.handlers["DECRBY"] = self.commandHandlerKeyWriteValueCommand
 		self.handlers["EXISTS"] = self.commandHandlerKeyReadValueCommand
 		self.handlers["EXPIRE"] = self.commandHandlerKeyWriteValueCommand
-		self.handlers["PEXPIREAT"] = self.commandHandlerKeyWriteValueCommand
+		self.handlers["EXPIREAT"] = self.commandHandlerKeyWriteValueCommand
 		self.handlers["PEXPIRE"] = self.commandHandlerKeyWriteValueCommand
 		self.handlers["PEXPIREAT"] = self.commandHandlerKeyWriteValueCommand
 		self.handlers["PERSIST"] = self.commandHandlerKeyWriteValueCommand
